@@ -5,6 +5,7 @@ use std::io::{self, BufRead, Write};
 
 mod driver;
 mod exec;
+mod kbd;
 mod tables;
 mod lcd;
 mod regs;
@@ -18,6 +19,7 @@ pub struct Ctx {
     pub driver: driver::DriverCtx,
     pub lcd: lcd::LcdCtx,
     pub exec: exec::ExecCtx,
+    pub kbd: kbd::KbdCtx,
 }
 
 fn dispatch(ctx: &mut Ctx, req: &Value) -> Result<Value, String> {
@@ -31,6 +33,7 @@ fn dispatch(ctx: &mut Ctx, req: &Value) -> Result<Value, String> {
         c if c.starts_with("lcd.") => lcd::handle(&mut ctx.lcd, c, req),
         c if c.starts_with("exec.") => exec::handle(&mut ctx.exec, c, req),
         c if c.starts_with("tables.") => tables::handle(c, req),
+        c if c.starts_with("kbd.") => kbd::handle(&mut ctx.kbd, c, req),
         _ => Err(format!("unknown cmd {cmd}")),
     }
 }
@@ -39,7 +42,7 @@ fn main() {
     let stdin = io::stdin();
     let stdout = io::stdout();
     let mut out = io::BufWriter::new(stdout.lock());
-    let mut ctx = Ctx { regs: regs::RegsCtx::default(), timer: timer::TimerCtx::default(), rt: rt::RtCtx::default(), driver: driver::DriverCtx::default(), lcd: lcd::LcdCtx::default(), exec: exec::ExecCtx::default() };
+    let mut ctx = Ctx { regs: regs::RegsCtx::default(), timer: timer::TimerCtx::default(), rt: rt::RtCtx::default(), driver: driver::DriverCtx::default(), lcd: lcd::LcdCtx::default(), exec: exec::ExecCtx::default(), kbd: kbd::KbdCtx::default() };
     for line in stdin.lock().lines() {
         let line = match line {
             Ok(l) => l,
